@@ -8,9 +8,9 @@ ID = 'C14'
 MODEL_TARGETS = ['theories/C14/Run.vo']
 PROOF_TARGETS = ['theories/C14/Properties.vo']
 PROPERTIES_V = 'theories/C14/Properties.v'
-IMPORTS = 'Require Import FV.Gen.C14 FV.C14.Model FV.C14.Run.'
-CASE_TYPE = 'case'
-CHECK = 'check_case'
+IMPORTS = 'Require Import FV.Gen.C14 FV.C14.Model FV.C14.HasStates FV.C14.Run.'
+CASE_TYPE = 'anycase'
+CHECK = 'check_any'
 SHARD_SIZE = 400
 RULE = ('histories of {cycle, start(A|B|C, cleanup?, attrs), stop} over scripted state/cleanup function behaviours '
         '(next/retry/finish/non-callable/raise) with start/stop injected by the environment at hook points '
@@ -20,7 +20,7 @@ RULE = ('histories of {cycle, start(A|B|C, cleanup?, attrs), stop} over scripted
 ASSUMPTIONS = [
     'state/cleanup functions are python functions with a __name__; attribute names passed to start() are not class attributes of StateMachine',
     'interference of a second thread is modelled at hook points only (between any two reads of next_task there is a hook or the reads are adjacent); see DESIGN C14',
-    'the HasStates status layer (frappy/states.py) is checked by the status oracle of the driver, modelled in C14/Model.v StatusLayer',
+    'HasStates layer (frappy/states.py): start_machine/stop_machine/cycle_machine are issued between cycles only (no interference inside a cycle), cleanup is the default on_cleanup, state functions carry busy status codes or none',
 ]
 NKEYS = 3
 ABORT_AFTER = 400
@@ -40,6 +40,8 @@ def _consts():
 
 # ------------------------------------------------------------------ implementation driver
 def run_case(case):
+    if case.get('kind') == 'hs':
+        return run_hs(case)
     from frappy.lib import statemachine as smod
 
     events = []          # current op's events
@@ -211,6 +213,12 @@ def enc_event(e):
 
 
 def encode(case, obs):
+    if case.get('kind') == 'hs':
+        return 'CHs (%s)' % encode_hs(case, obs)
+    return 'CCore (%s)' % encode_core(case, obs)
+
+
+def encode_core(case, obs):
     ops = []
     for i, op in enumerate(case['ops'][:len(obs['steps'])]):
         ops.append('OCycle' if op == 'C' else f'(OPost {enc_task(op, i)})')
@@ -232,11 +240,15 @@ def encode(case, obs):
 
 
 def model_result_term(case, obs):
-    return f'model_trace ({encode(case, obs)})'
+    if case.get('kind') == 'hs':
+        return f'hmodel_status ({encode_hs(case, obs)})'
+    return f'model_trace ({encode_core(case, obs)})'
 
 
 # ------------------------------------------------------------------ direct oracle (the property on the impl trace)
 def oracle(case, obs):
+    if case.get('kind') == 'hs':
+        return oracle_hs(case, obs)
     fails = []
     maxloops, rounds = _consts()
 
@@ -350,12 +362,16 @@ FINDING_CLASSIFIERS = {}
 
 
 def nontrivial_key(case, obs):
+    if case.get('kind') == 'hs':
+        return repr(('hs', case['ops'], obs['used_s'], case['scode'])) if obs['used_s'] else None
     if not obs['used_s']:
         return None
     return repr((case['ops'], obs['used_s'], obs['used_c'], case['env']))
 
 
 def outcome_labels(case, obs):
+    if case.get('kind') == 'hs':
+        return ['hs'] + sorted({'hs-status-%s' % st['st'][0] for st in obs['steps']})
     labs = set()
     for s in obs['steps']:
         for e in s['events']:
@@ -368,6 +384,8 @@ def outcome_labels(case, obs):
 
 
 def sample_repr(case, obs):
+    if case.get('kind') == 'hs':
+        return {'case': case, 'status_per_op': [(st['st'], st['log']) for st in obs['steps']][:8]}
     return {'case': case, 'events_per_op': [s['events'] for s in obs['steps']][:6]}
 
 
@@ -415,6 +433,10 @@ def exhaustive_cases(depth):
 
 
 def gen_cases(seed, tier):
+    return gen_core_cases(seed, tier) + gen_hs_cases(seed, tier)
+
+
+def gen_core_cases(seed, tier):
     rng = random.Random(seed * 1000003 + 14)
     n = {'quick': 4000, 'thorough': 60000, 'search': 60000}[tier]
     cases = [rand_case(rng) for _ in range(n)]
@@ -428,6 +450,13 @@ def gen_cases(seed, tier):
 
 
 def shrink(case):
+    if case.get('kind') == 'hs':
+        ops = case['ops']
+        for i in range(len(ops) - 1, -1, -1):
+            yield dict(case, ops=ops[:i] + ops[i + 1:])
+        if case['s']:
+            yield dict(case, s=case['s'][:-1])
+        return
     ops = case['ops']
     for i in range(len(ops) - 1, -1, -1):
         yield dict(case, ops=ops[:i] + ops[i + 1:])
@@ -437,3 +466,331 @@ def shrink(case):
         yield dict(case, s=case['s'][:-1])
     if case['c']:
         yield dict(case, c=case['c'][:-1])
+
+
+# ================================================================== HasStates layer (frappy/states.py)
+def _stub_env():
+    from frappy.lib import generalConfig
+
+    class Log:
+        handlers = []
+
+        def __getattr__(self, name):
+            return lambda *a, **k: None
+
+    class Disp:
+        def announce_update(self, moduleobj, pobj):
+            pass
+
+    class Srv:
+        dispatcher = Disp()
+        secnode = None
+    generalConfig.testinit(omit_unchanged_within=0)
+    return Log(), Srv()
+
+
+TEXT_RE = None
+
+
+def _text(t, names):
+    """status text -> abstract text (see C14/HasStates.v)"""
+    import re
+    if t == '':
+        return ['empty']
+    if t in names:
+        return ['name', names[t]]
+    if t == 'stopping':
+        return ['stopping']
+    if t == 'restarting':
+        return ['restarting']
+    if t == 'stopped':
+        return ['stopped']
+    m = re.fullmatch(r'stopping \((.*)\)', t)
+    if m and m.group(1) in names:
+        return ['stopping_in', names[m.group(1)]]
+    m = re.fullmatch(r'restarting \((.*)\)', t)
+    if m and m.group(1) in names:
+        return ['restarting_in', names[m.group(1)]]
+    m = re.fullmatch(r'final(-?\d+)', t)
+    if m:
+        return ['final', int(m.group(1))]
+    if t == 'Finish was returned without final status':
+        return ['nofinal']
+    if t.startswith('ValueError(') or t.startswith('RuntimeError('):
+        return ['error']
+    return ['other', t]
+
+
+def run_hs(case):
+    """a real HasStates + Drivable module with scripted state functions"""
+    from frappy.core import Drivable
+    from frappy.states import HasStates, Retry, Finish, status_code
+    from frappy.lib import statemachine as smod
+    from frappy.modulebase import PollInfo
+    log, srv = _stub_env()
+    st = {'hook': 0, 'si': 0, 'calls': 0}
+    used_s = []
+    sscript = case['s']
+    scode = {int(k): v for k, v in case['scode']}
+    reads = []
+
+    def hook():
+        n = st['hook']
+        st['hook'] += 1
+        return n
+
+    def make_state(sid):
+        def f(self, sm):
+            st['calls'] += 1
+            if st['calls'] > ABORT_AFTER:
+                raise Abort()
+            n = hook()
+            b = sscript[st['si']] if st['si'] < len(sscript) else 'R'
+            st['si'] += 1
+            used_s.append([n, b])
+            if b == 'R':
+                return Retry
+            if b == 'F':
+                return Finish
+            if b == 'X':
+                return 42
+            if b == 'E':
+                raise ValueError('scripted')
+            if b[0] == 'FS':
+                return self.final_status(b[1], f'final{b[1]}')
+            return getattr(self, f'state_{b[1]}')
+        f.__name__ = f'state_{sid}'
+        if sid in scode:
+            f = status_code(scode[sid])(f)
+        return f
+
+    ns = {f'state_{i}': make_state(i) for i in range(4)}
+
+    def read_status(self):
+        v = HasStates.read_status(self)
+        reads.append(v)
+        return v
+    ns['read_status'] = read_status
+    ns['read_value'] = lambda self: 0
+    from frappy.core import Parameter, StatusType
+    ns['status'] = Parameter(datatype=StatusType(Drivable, 'PREPARING', 'RAMPING', 'FINALIZING'))
+    Mod = type('Mod', (HasStates, Drivable), ns)
+    names = {f'state {i}': i for i in range(4)}
+
+    class FakeTime:
+        @staticmethod
+        def time():
+            hook()
+            return 0.0
+    orig_time = smod.time
+    try:
+        m = Mod('m', log, {'description': ''}, srv)
+        m.earlyInit()
+        m.initModule()
+        m.pollInfo = PollInfo(m.pollinterval, m.triggerPoll)
+        sm = m._state_machine
+        orig_trans = sm.transition
+
+        def transition(smx, newstate):
+            orig_trans(smx, newstate)
+            hook()
+        sm.transition = transition
+        orig_on_cleanup = m.on_cleanup
+
+        def on_cleanup(smx):
+            r = orig_on_cleanup(smx)
+            hook()
+            return r
+        m.on_cleanup = on_cleanup
+        smod.time = FakeTime
+        st['hook'] = 0
+        steps = []
+        for i, op in enumerate(case['ops']):
+            del reads[:]
+            exc = None
+            try:
+                if op[0] == 'start':
+                    m.start_machine(getattr(m, f'state_{op[1]}'), **{f'a{k}': v for k, v in op[2]})
+                    sm.next_task.verif_id = i
+                elif op[0] == 'stop':
+                    before = sm.next_task
+                    m.stop_machine()
+                    if sm.next_task is not before:
+                        sm.next_task.verif_id = i
+                else:
+                    m.cycle_machine()
+            except Abort:
+                exc = 'Abort'
+            except Exception as e:
+                exc = f'{type(e).__name__}: {e}'
+            stat = sm.status
+            idle = sm.idle_status
+            steps.append({
+                'exc': exc,
+                'st': [int(stat[0]), _text(stat[1], names)],
+                'idle': None if not idle else [int(idle[0]), _text(idle[1], names)],
+                'log': [[int(v[0]), _text(v[1], names)] for v in reads],
+                'sf': None if sm.statefunc is None else int(sm.statefunc.__name__.split('_')[1]),
+                'nt': None if sm.next_task is None else getattr(sm.next_task, 'verif_id', -1),
+                'param': [int(m.status[0]), _text(m.status[1], names)],
+            })
+            if exc:
+                break
+        return {'steps': steps, 'used_s': used_s}
+    finally:
+        smod.time = orig_time
+
+
+def enc_text(t):
+    k = t[0]
+    return {'empty': 'TEmpty', 'stopping': 'TStopping', 'restarting': 'TRestarting', 'stopped': 'TStopped',
+            'error': 'TError', 'nofinal': 'TNoFinal'}.get(k) or {
+        'name': lambda: f'(TName {gal.nat(t[1])})', 'stopping_in': lambda: f'(TStoppingIn {gal.nat(t[1])})',
+        'restarting_in': lambda: f'(TRestartingIn {gal.nat(t[1])})', 'final': lambda: f'(TFinal {gal.z(t[1])})'}[k]()
+
+
+def enc_status(s):
+    return f'({gal.z(s[0])}, {enc_text(s[1])})'
+
+
+def enc_sbeh_hs(b):
+    if not isinstance(b, str) and b[0] == 'FS':
+        return f'(BFinal {gal.z(b[1])})'
+    return enc_sbeh(b)
+
+
+def encode_hs(case, obs):
+    ops = []
+    for i, op in enumerate(case['ops'][:len(obs['steps'])]):
+        if op[0] == 'start':
+            ops.append(f'(HStart {gal.nat(i)} {gal.nat(op[1])} {gal.lst(op[2], lambda p: gal.pair(p, gal.nat, gal.z))})')
+        elif op[0] == 'stop':
+            ops.append(f'(HStop {gal.nat(i)})')
+        else:
+            ops.append('HCycle')
+    obl = []
+    for s in obs['steps']:
+        if s['exc']:
+            raise ValueError('implementation raised: ' + s['exc'])
+        obl.append('{| ho_st := %s; ho_idle := %s; ho_log := %s; ho_sf := %s; ho_nt := %s |}' % (
+            enc_status(s['st']), gal.option(s['idle'], enc_status), gal.lst(s['log'], enc_status),
+            gal.option(s['sf'], gal.nat), gal.option(s['nt'], gal.nat)))
+    return '{| h_s := %s; h_scode := %s; h_ops := [%s]; h_obs := [%s] |}' % (
+        gal.lst(obs['used_s'], lambda p: f'({gal.nat(p[0])}, {enc_sbeh_hs(p[1])})'),
+        gal.lst(case['scode'], lambda p: gal.pair(p, gal.nat, gal.z)), '; '.join(ops), '; '.join(obl))
+
+
+def _busy(code):
+    return 300 <= code < 400
+
+
+def oracle_hs(case, obs):
+    """busy from the start request until the machine has finished; final or stopped status afterwards"""
+    fails = []
+
+    def fail(cls, what):
+        fails.append({'class': cls, 'what': what})
+    run = None          # current run: {'stopped': bool, 'error': bool, 'final': code|None}
+    pending_start = False
+    for idx, s in enumerate(obs['steps']):
+        op = case['ops'][idx]
+        if s['exc']:
+            fail('cycle-raised', f'op {idx} ({op}) raised {s["exc"]}')
+            break
+        if s['param'] != s['st']:
+            fail('status', f'op {idx}: status parameter {s["param"]} differs from the machine status {s["st"]}')
+        active = s['sf'] is not None
+        start_pending = s['nt'] is not None and case['ops'][s['nt']][0] == 'start'
+        if (active or start_pending) and not _busy(s['st'][0]):
+            fail('status', f'op {idx} ({op}): machine running or start requested but status is {s["st"]}')
+        if op[0] == 'start':
+            pending_start = True
+        if op[0] == 'stop' and run is not None and idx and obs['steps'][idx - 1]['sf'] is not None:
+            run['stopped'] = True
+        if op[0] == 'cycle':
+            used = [b for n, b in obs['used_s']]
+            if pending_start and (active or s['nt'] is None):
+                pass
+        if not active and not start_pending and s['nt'] is None:
+            # finished: the status must be the final status of the run that ended (or of the stop / error)
+            if _busy(s['st'][0]):
+                fail('status', f'op {idx}: machine inactive but status still busy {s["st"]}')
+    # stale final status: a run that neither was stopped, nor raised, nor called final_status must end (IDLE, '')
+    runs = _hs_runs(case, obs)
+    for r in runs:
+        if r['ended'] is not None and r['plain'] and r['status'] != [100, ['empty']]:
+            fail('stale-final-status', f'run started at op {r["start"]} finished normally at op {r["ended"]} '
+                                       f'but reports {r["status"]}')
+    return fails
+
+
+def _hs_runs(case, obs):
+    """segments: from the cycle in which a start request is entered to the cycle after which the machine is inactive.
+    plain = finished by Finish (behaviour F) without stop request, error or final_status in between and without a
+    later start request pending"""
+    runs = []
+    cur = None
+    si = 0
+    beh = [b for n, b in obs['used_s']]
+    calls_before = 0
+    for idx, s in enumerate(obs['steps']):
+        op = case['ops'][idx]
+        if op[0] == 'stop' and cur is not None:
+            cur['plain'] = False
+        if op[0] == 'start' and cur is not None:
+            cur['plain'] = False
+        if op[0] == 'cycle':
+            prev_nt = obs['steps'][idx - 1]['nt'] if idx else None
+            entered = prev_nt is not None and case['ops'][prev_nt][0] == 'start' and s['nt'] is None
+            if entered and (cur is None):
+                cur = {'start': prev_nt, 'plain': obs['steps'][idx - 1]['sf'] is None, 'ended': None, 'status': None}
+            elif entered:
+                cur = {'start': prev_nt, 'plain': False, 'ended': None, 'status': None}
+            if cur is not None and s['sf'] is None and s['nt'] is None:
+                cur['ended'] = idx
+                cur['status'] = s['st']
+                runs.append(cur)
+                cur = None
+        # behaviours consumed so far decide plainness: any E, X, FS or chained exhaustion spoils it
+    # refine plainness with the behaviours: a run is plain only if all its calls were R / N / F
+    # (conservative: if any non-plain behaviour occurs anywhere in the case, only runs before it count)
+    bad_first = next((i for i, b in enumerate(beh) if b in ('E', 'X') or (not isinstance(b, str) and b[0] == 'FS')), None)
+    if bad_first is not None:
+        runs = []       # keep the oracle simple and sound: judge only cases without such behaviours
+    if sum(1 for b in beh if not isinstance(b, str) and b[0] == 'N') >= 10:
+        runs = []       # chains may exhaust maxloops (an error)
+    return runs
+
+
+def f_stale_final_status(case, obs, f):
+    return case.get('kind') == 'hs' and f['class'] == 'stale-final-status'
+
+
+FINDING_CLASSIFIERS['stale-final-status-of-earlier-run'] = f_stale_final_status
+
+BEH_HS = ['R', 'R', 'F', 'E', 'X', ['N', 0], ['N', 1], ['N', 2], ['N', 3], ['FS', 100], ['FS', 200], ['FS', 400]]
+
+
+def rand_hs_case(rng):
+    n = rng.randint(2, 10)
+    ops = [['start', rng.randrange(4), []]]
+    for _ in range(n):
+        r = rng.random()
+        if r < 0.55:
+            ops.append(['cycle'])
+        elif r < 0.8:
+            ops.append(['start', rng.randrange(4), [[k, rng.randint(-2, 2)] for k in range(2) if rng.random() < 0.3]])
+        else:
+            ops.append(['stop'])
+    ops.append(['cycle'])
+    plain = rng.random() < 0.4
+    pool = ['R', 'F', ['N', 0], ['N', 1], ['N', 2]] if plain else BEH_HS
+    s = [rng.choice(pool) for _ in range(rng.randint(0, 20))]
+    scode = [[i, rng.choice([300, 300, 340, 370, 390])] for i in range(4) if rng.random() < 0.5]
+    return {'kind': 'hs', 's': s, 'scode': scode, 'ops': ops}
+
+
+def gen_hs_cases(seed, tier):
+    rng = random.Random(seed * 1000003 + 1414)
+    n = {'quick': 1500, 'thorough': 30000, 'search': 30000}[tier]
+    return [rand_hs_case(rng) for _ in range(n)]
